@@ -43,6 +43,7 @@ def run(prog, chk):
                     "(two classes of one glyph never share a lookup, where only one of them could apply) (R06.16)"]
     chk.decided += ["every collected contextual anchor reaches a contextual lookup: the three contextual tables are enumerated in full (no glyph filter: the abvm / blwm builder makes no contextual lookups), "
                     "every (glyph, anchor) pair is turned into a statement and every group is handed to the lookup builder (R06.15)"]
+    chk.decided += ["feature-writer objects keep no per-font state outside self.context (no memoising decorators, no attributes written outside __init__): a mark writer object reused for a second font must not answer from the first font's anchors or classes (R06.20 = R08.7)"]
     chk.not_decided += ["the offsets a shaper computes", "lookup grouping / graph colouring result", "which script a glyph is routed to (abvm / blwm classification data)", "contextual anchors' generated rules"]
     chk.guard(r061, prog, chk)
     chk.guard(r062, prog, chk)
@@ -62,6 +63,8 @@ def run(prog, chk):
     chk.guard(r0617, prog, chk)
     chk.guard(r0618, prog, chk, "R06.18")
     chk.guard(check_no_unkeyed_context_memo, prog, chk, "R06.19")
+    from .c08 import r087
+    chk.guard(r087, prog, chk, "R06.20")
     from .rounding import check_no_truthiness_on_coordinates
     n = check_no_truthiness_on_coordinates(prog, chk, "R06.9", [MARK, "ufo2ft.featureWriters.baseFeatureWriter"])
     need(n >= 40, "truthiness scan found too few tests")
